@@ -1,6 +1,7 @@
 """QUEUE rules: the dispatch queue, its single consumer, the enqueue discipline."""
 from mirq.anchors import CB_DEQUEUE, CB_RECV, CB_TRYRECV, CB_SEND, POOL_EXEC, THREAD_SPAWN, CB_CTORS, CB
-from mirq.prov import subterms, term_str, strip_wrap, strip_clone
+from mirq.prov import subterms, term_str, strip_wrap, strip_clone, is_lock_result
+from mirq.inline import strip_generics
 from mirq.report import short, AnchorMissing
 from mirq.program import Site
 
@@ -412,11 +413,17 @@ def q9_dispatch_fails_only_when_closed(ctx, rep):
             is_err = ret is not None and ret[0] == "agg" and ret[1].endswith("Result::Err")
             locks = [ev for ev in p.calls() if ev.site is not None and ev.ck.startswith("std::sync::Mutex::") and ev.args and any(st[0] == "field" and st[2] == A.f_tx for st in subterms(ev.args[0]))]
             for ev in locks:
-                rep.check(ev.ck == "std::sync::Mutex::lock", R, "waits-for-the-sender-lock:%s" % short(e.path), ev.site.where, "the sender slot is locked with the blocking lock()", "the sender slot is locked with %s: a dispatch racing another one fails instead of waiting" % ev.ck.split("::")[-1])
+                okl = ev.ck == "std::sync::Mutex::lock"
+                if not okl and ev.ck == "std::sync::Mutex::try_lock":
+                    # a fast path: when it fails on this path, the blocking lock() follows
+                    out = [v for (k, v) in p.decisions if k == ("discr", ev.result)]
+                    later = [x for x in locks if x.ck == "std::sync::Mutex::lock" and p.events.index(x) > p.events.index(ev)]
+                    okl = bool(out) and (out[0].lstrip("*") == "Ok" or bool(later))
+                rep.check(okl, R, "waits-for-the-sender-lock:%s" % short(e.path), ev.site.where, "the sender slot is locked with the blocking lock() (or a try_lock whose failure leads to it)", "the sender slot is locked with %s: a dispatch racing another one fails instead of waiting" % ev.ck.split("::")[-1])
             if not is_err:
                 continue
             n += 1
-            slot = [v for (k, v) in p.decisions if k[0] == "discr" and k[1][0] != "lockres" and any(st[0] == "field" and st[2] == A.f_tx for st in subterms(k[1]))]
+            slot = [v for (k, v) in p.decisions if k[0] == "discr" and not is_lock_result(k[1]) and any(st[0] == "field" and st[2] == A.f_tx for st in subterms(k[1]))]
             closed = bool(slot) and slot[0].lstrip("*") == "None"
             enq = dispatch_enqueue_events(ctx, p)
             enq_err = False
@@ -508,13 +515,13 @@ def d1_same_store_dispatcher(ctx, rep):
     for k, s, lab in ctx.revents(lambda l: l.startswith("HOOK:")):
         # last argument is the dispatcher; follow params up the inlined call chain
         t = _resolve_up(ctx, k, s, len(s.term["args"]) - 1)
-        base = strip_wrap(t)
+        base = _through_forwarding_dispatcher(ctx, strip_wrap(t))
         good = base[0] == "upvar" and _upvar_is_store(ctx, cl, base[1])
         rep.check(good, R, "hook-dispatcher:%s" % lab, s.where, "dispatcher argument is a clone of the store's own Arc (%s)" % term_str(t), "dispatcher argument is %s, not the store's own handle" % term_str(t))
         n += 1
     for k, s, lab in ctx.revents(lambda l: l.startswith("HANDOVER:")):
         t = _resolve_up(ctx, k, s, 0)
-        base = strip_wrap(t)
+        base = _through_forwarding_dispatcher(ctx, strip_wrap(t))
         good = base[0] == "upvar" and _upvar_is_store(ctx, cl, base[1])
         rep.check(good, R, "effect-dispatcher:%s:%d" % (lab, n), s.where, "effects are handed to the store's own dispatcher", "effects are handed to %s" % term_str(t))
         n += 1
@@ -544,6 +551,48 @@ def d1_same_store_dispatcher(ctx, rep):
     except AnchorMissing as e:
         rep.anchor_missing(R, e.what)
     rep.floor(R, "dispatcher hand-over sites", n, 5)
+
+
+def _through_forwarding_dispatcher(ctx, base):
+    """`ReducerDispatcher(store.clone())`: a crate type of its own whose Dispatcher impl forwards
+    each of its methods, arguments unchanged, to the same method of its only field - the
+    dispatcher that is really handed out is that field"""
+    for _ in range(3):
+        if not (base[0] == "agg" and base[1].startswith("adt:") and len(base[2]) == 1):
+            return base
+        adt = base[1][4:].rsplit("::", 1)[0]
+        impls = [b for b in ctx.prog.bodies if (b.j.get("impl_trait") or "").split("::")[-1].split("<")[0] == "Dispatcher" and (b.j.get("impl_adt") or "").split("<")[0] == adt]
+        if len(impls) < 3:
+            return base
+        for b in impls:
+            m = b.j.get("name")
+            bp = ctx.prog.bp(b)
+            calls = [s_ for s_ in ctx.prog.sites(b) if s_.fn and (s_.fn.get("trait") or "").split("::")[-1] == "Dispatcher"]
+            others = [s_ for s_ in ctx.prog.sites(b) if s_ not in calls and s_.fn and s_.fn.get("krate") == ctx.A.crate]
+            if len(calls) != 1 or others or strip_generics(calls[0].fn["path"]).split("::")[-1] != m:
+                return base
+            c = calls[0]
+            recv = strip_wrap(bp.arg_term(c.bb, 0))
+            if not (recv[0] == "field" and strip_wrap(recv[1]) == ("param", 1)):
+                return base
+            for i in range(1, len(c.term["args"])):
+                if strip_wrap(bp.arg_term(c.bb, i)) != ("param", i + 1):
+                    return base
+            # every return passes through the call
+            cfg = ctx.prog.cfg(b)
+            seen, work, leak = set(), [0], False
+            while work:
+                x = work.pop()
+                if x in seen or x == c.bb:
+                    continue
+                seen.add(x)
+                if b.blocks[x]["term"]["k"] == "return":
+                    leak = True
+                work.extend(cfg.succ[x])
+            if leak:
+                return base
+        base = strip_wrap(base[2][0])
+    return base
 
 
 def _upvar_is_store(ctx, cl, k):
